@@ -188,7 +188,7 @@ fn chunked(mut ranges: Vec<(u64, u64)>) -> (Vec<Job>, u64) {
 
 pub fn run(thorough: bool, deadline: Instant) -> (PartOut, Vec<(&'static str, Vec<u8>)>) {
     const MAX: u64 = (1 << 62) - 1;
-    let radius: u64 = if thorough { 1 << 16 } else { 1 << 10 };
+    let radius: u64 = if thorough { 1 << 20 } else { 1 << 10 };
     let mut ranges = vec![(0u64, 1u64 << 14)];
     if thorough {
         ranges.push((1 << 14, 1 << 30));
